@@ -61,7 +61,16 @@ def apply_ids(word, info):
 
 
 def run(ctx):
-    table = gen_c16.generate()
+    try:
+        table = gen_c16.generate()
+        translator_ok = True
+        ctx.obligation('translator gen_c16 understood the source', True, 'translator')
+    except Exception as e:
+        # a translator failure is a failed obligation; the dynamic comparison (which does not need the table) still runs
+        table = {'classes': [], 'generic_base': 'MessagePayload', 'inherits': {}, 'unanalysed': {'*': repr(e)[:300]}}
+        translator_ok = False
+        ctx.obligation('translator gen_c16 understood the source', False, 'translator', repr(e)[:400])
+        ctx.broken_proof('translators/gen_c16.py failed: %r' % (e,))
     rows = [(c['cls'], r) for c in table['classes'] for r in c['rows']]
     n_opaque = sum(1 for _, r in rows if r['kind'] == 'Opaque')
     ctx.coverage['table'] = {'classes_with_own_to_numpy': len(table['classes']), 'rows': len(rows), 'opaque_rows_dynamic_only': n_opaque,
@@ -82,7 +91,7 @@ def run(ctx):
     ctx.coverage['table']['row_kinds'] = kinds
     for k, why in table['unanalysed'].items():
         ctx.notes.append('to_numpy of %s not understood by the translator (dynamic comparison only): %s' % (k, why))
-    if not ctx.coq():
+    if not ctx.coq() and not getattr(ctx, 'pending_broken', None):
         ctx.broken_proof()
     model = vf.build_extracted('c16', 'C16', 'c16_driver.ml', conv=False)
     rc, mo, _ = vf.run_lines(model, ['BAD', 'OPAQUE'])
@@ -98,6 +107,8 @@ def run(ctx):
     tclasses = {c['cls']: c for c in table['classes']}
     for c in classes:
         resolved = c['resolved'].split('.')[0]
+        if not translator_ok:
+            continue
         if c['own'] and c['name'] not in tclasses:
             raise RuntimeError('class %s defines to_numpy but the translator did not see it' % c['name'])
         if resolved not in tclasses and resolved != table['generic_base']:
@@ -124,7 +135,7 @@ def run(ctx):
     for c in classes:
         resolved = c['resolved'].split('.')[0]
         trow = {row['key']: {'kind': row['kind'], 'path': row['path']} for row in tclasses[resolved]['rows']} if resolved in tclasses else None
-        variants = [0, 1] + ([2] if c['has_enum_preprocessing'] else [])
+        variants = [0, 1] + ([2, 3] if c['has_enum_preprocessing'] else [])
         for n in range(0, N + 1):
             if c['has_p1'] and n > 0:
                 if n <= 4:
@@ -138,13 +149,20 @@ def run(ctx):
                     if v != 0 and nan not in ([], [0]) and len(nan) != n and r.random() < 0.5:
                         continue
                     reqs.append({'cls': c['name'], 'n': n, 'nan': nan, 'variant': v, 'table': trow, 'origin': 'gen'})
+    # long lists (one entry per message must hold beyond toy sizes), with and without invalid P1 times
+    for c in classes:
+        big = 300 if ctx.thorough else 48
+        for nan in ([], [i for i in range(big) if r.random() < 0.3]):
+            if nan and not c['has_p1']:
+                continue
+            reqs.append({'cls': c['name'], 'n': big, 'nan': nan, 'variant': 0, 'table': None, 'origin': 'large'})
     # the same conversions on messages that went through the wire format: pack -> unpack images and what the stream decoder
     # returns (decoded messages hold construct containers where Python-built ones hold numpy arrays)
     for c in classes:
         resolved = c['resolved'].split('.')[0]
         trow = {row['key']: {'kind': row['kind'], 'path': row['path']} for row in tclasses[resolved]['rows']} if resolved in tclasses else None
         for rep in ('unpack', 'decoder'):
-            if rep == 'decoder' and c['name'] == 'MeasurementDetails':
+            if (rep == 'decoder' and c['name'] == 'MeasurementDetails') or c.get('synthetic'):
                 continue
             for n in range(0, N + 1):
                 subsets = [[]] if not (c['has_p1'] and n > 0) else ([[], [0], list(range(n))] + [[i for i in range(n) if r.random() < 0.5] for _ in range(2)])
@@ -153,7 +171,7 @@ def run(ctx):
     # histories on one MessageData: convert, change the message list (same count or not), convert again
     hist = []
     for c in classes:
-        if not c['has_p1'] or c['name'] == 'MeasurementDetails':
+        if not c['has_p1'] or c['name'] == 'MeasurementDetails' or c.get('synthetic'):
             continue
         for t0 in (1.0, 1000.0, 5000.0, 90000.0, 1.0e6, 1.3e9):
             for op in ('slide', 'slide-add', 'replace-shifted', 'replace-middle', 'append', 'same'):
@@ -185,7 +203,15 @@ def run(ctx):
         if d.get('skipped'):
             ctx.count('wire-skipped:' + d['skipped'].split(':')[0][:60]); continue
         if 'error' in d:
-            raise RuntimeError('c16 harness failed on %r: %s\n%s' % ({k: q[k] for k in ('cls', 'n', 'nan', 'variant')}, d['error'], d.get('trace', '')))
+            # no exception may escape a conversion: reported as a failing input, the run goes on
+            exc = d['error'].split(':')[0]
+            sig = {'class': q['cls'], 'key': '*', 'kind': 'conversion-raises', 'exception': exc}
+            ctx.count('issue:conversion-raises')
+            if json.dumps(sig, sort_keys=True) not in seen:
+                seen.add(json.dumps(sig, sort_keys=True))
+                ctx.violation(sig, '%s: converting %d messages%s raises %s' % (q['cls'], q['n'], ' (history)' if q.get('history') else '', d['error'][:200]),
+                              {'request': strip(q), 'error': d['error'], 'trace': d.get('trace', '')[-400:]})
+            continue
         for k, v in d['stats'].items():
             ctx.count('compared:' + k, v)
         ctx.count('messages:%d' % q['n'])
@@ -205,7 +231,7 @@ def run(ctx):
                 sig['op'] = iss['op']; sig['first_last_time_changed'] = iss['first_last_time_changed']
             if iss['kind'] == 'output-depends-on-field-container-type':
                 sig['representation'] = iss['representation']
-            if iss['kind'] == 'repeated-conversion-raises':
+            if iss['kind'] in ('repeated-conversion-raises', 'conversion-raises'):
                 sig['exception'] = iss['exception']
             ctx.count('issue:' + iss['kind'])
             key = json.dumps(sig, sort_keys=True)
@@ -229,6 +255,9 @@ def run(ctx):
             elif got == tuple(s_) and got != tuple(m_):
                 ctx.broken_correspondence('NaN-removal model and implementation differ on %s.%s (shape %s)' % (q['cls'], k, info['raw_shape']),
                                           {'request': strip(q), 'key': k, 'impl': got, 'model': m_})
+    if ctx.hist.get('compared:outputs_sharing_memory_with_a_message_array'):
+        ctx.notes.append('advisory (not part of the property): some outputs share memory with a message\'s own array '
+                         '(CalibrationStatus returns messages[0].mounting_angle_max_std_dev_deg itself as the time-independent output)')
     for row in bad_rows:
         ctx.notes.append('generated table row violating same_name_same_source / ntd rule: ' + row)
     for q, d in list(zip(reqs, res))[::max(1, len(reqs) // 5)][:5]:
@@ -240,7 +269,9 @@ def run(ctx):
                             'appending one message; declared time-independent outputs against the first message; every non-opaque generated row interpreted on the same '
                             'messages against the output; MessageData.to_numpy(remove_nan_times=True) against the raw arrays with the invalid positions removed along '
                             'the time axis, and against the extracted model and SPEC of the removal. Each class is also converted from the pack->unpack image and from the stream decoder output of its messages (compared with Python-built twins holding the same values), '
-                            'and in histories on one MessageData (convert; slide / replace / append / keep; convert again) at P1 times 1 s .. 1.3e9 s. '
+                            'on synthetic payload classes with a single scalar / single vector field using the default conversion, on long lists (48 messages quick, 300 thorough), '
+                            'given as list and as tuple, twice (results repeatable, earlier results and the messages untouched), through MessageData.to_numpy, DataLoader.to_numpy(dict) and with keep_*=False, '
+                            'with the time source forced to INVALID, and in histories on one MessageData (convert; slide / replace / append / keep; convert again) at P1 times 1 s .. 1.3e9 s. '
                             'A case is distinct by (class, length, invalid positions, variant, representation, history).'
                             % (len(classes), sum(1 for c in classes if c['resolved'].split('.')[0] == table['generic_base']), N,
                                'all (length <= 4) / sampled' if ctx.thorough else 'all'))
